@@ -116,6 +116,30 @@ func check(r *vk.Run, c *client, op *spec.Op, args spec.Args, reply []byte) {
 			return
 		}
 		r.Violation(key, v.Detail, "reply", caseT{op.Name, fmt.Sprint(map[string]any(args)), vk.Hex(reply)})
+		return
+	}
+	// the protocol decoding of a date-time is that wall clock in the process time zone: the value
+	// returned must also denote that instant (judged away from the zone's offset changes)
+	if o.Err == nil && !o.Nil && e.Sentinel == "" {
+		for k, w := range e.Fields {
+			_, ok := w.(spec.CivilDT)
+			u, has := o.Fields[k+"@unix"].(int64)
+			dt, ok2 := o.Fields[k].(spec.CivilDT) // the wall clock reported (already judged equal to the reference decoding)
+			if !ok || !ok2 || !has || dt.Zero || e.Doms[k] != spec.In || dt.Y < 1 {
+				continue
+			}
+			want := ops.ToTime(dt, time.Local)
+			_, o0 := want.Zone()
+			_, o1 := want.Add(-26 * time.Hour).Zone()
+			_, o2 := want.Add(26 * time.Hour).Zone()
+			if o0 != o1 || o0 != o2 {
+				continue
+			}
+			if u != want.Unix() {
+				r.Violation("C02/"+op.Name+"/"+k+"/wrong-instant", fmt.Sprintf("result field %s shows the wall clock of the reply but denotes the instant %s; the protocol decoding is that wall clock in the process time zone, %s",
+					k, time.Unix(u, 0).UTC().Format(time.RFC3339), want.UTC().Format(time.RFC3339)), "reply", caseT{op.Name, fmt.Sprint(map[string]any(args)), vk.Hex(reply)})
+			}
+		}
 	}
 }
 
@@ -446,6 +470,41 @@ func main() {
 					check(r, c, op, args, spec.EncodeReply(op, serial, vals))
 					r.Count(1)
 					distinct.Add(1)
+				}
+			}
+		}
+	}
+
+	// request echoes: a set-time reply that repeats (or differs by a second or a day from) the wall
+	// clock the caller asked for, the request time being held in each of 7 Locations - the result is
+	// the decoding of the reply, whatever the request was
+	{
+		op := spec.OpByName("SetTime")
+		locs := []*time.Location{time.UTC, time.Local, time.FixedZone("UTC+8", 8*3600), time.FixedZone("UTC-8", -8*3600)}
+		for _, name := range []string{"America/New_York", "Pacific/Apia", "Asia/Kathmandu"} {
+			l, err := time.LoadLocation(name)
+			if err != nil {
+				r.Machinery("%v", err)
+				continue
+			}
+			locs = append(locs, l)
+		}
+		civils := []spec.CivilDT{{Y: 2024, M: 6, D: 15, H: 12, Mi: 34, S: 56}, {Y: 2024, M: 1, D: 1}, {Y: 2023, M: 12, D: 31, H: 23, Mi: 59, S: 59},
+			{Y: 2024, M: 2, D: 29, H: 6}, {Y: 2000, M: 1, D: 1, H: 0, Mi: 0, S: 1}, {Y: 2099, M: 12, D: 31, H: 23, Mi: 59, S: 59}, {Y: 1970, M: 1, D: 1}, {Y: 2024, M: 11, D: 3, H: 1, Mi: 30}}
+		for cfg := 0; cfg <= 2; cfg++ {
+			c := newClientCfg(cfg)
+			for _, loc := range locs {
+				for _, cv := range civils {
+					asked := ops.ToTime(cv, loc)
+					for _, delta := range []time.Duration{0, time.Second, -time.Second, 24 * time.Hour, -time.Hour} {
+						a := asked.Add(delta)
+						echoed := spec.CivilDT{Y: a.Year(), M: int(a.Month()), D: a.Day(), H: a.Hour(), Mi: a.Minute(), S: a.Second()}
+						args := ops.Baseline(op)
+						args[ops.RawTime] = asked
+						check(r, c, op, args, spec.EncodeReply(op, serial, spec.Args{"DateTime": echoed}))
+						r.Count(1)
+						distinct.Add(1)
+					}
 				}
 			}
 		}
